@@ -30,6 +30,49 @@ let views_case (c : case) (out : out_channel) =
       | ObsBad -> "bad" in
     Printf.fprintf out "%s %d %s\n" c.id i s) obs
 
+let kind_num k = int_of_n (kind_byte k)
+
+let show_res_err e = match e with
+  | ECorrupt -> "ERR_CORRUPT" | EFormat -> "ERR_FORMAT" | EVersion -> "ERR_VERSION" | EIo -> "ERR_IO"
+  | ENotJbk -> "ERR_NOTJBK" | EFeature -> "ERR_FEATURE" | EOob -> "ERR_OOB"
+
+let infos_line (f : n list) : string =
+  match manifest_infos f with
+  | Err e -> show_res_err e
+  | Ok infos ->
+    let l = List.map (fun (_, pi) ->
+      Printf.sprintf "%s:%d:%d:%s" (hex_of_bytes (ibytes pi.pi_uuid)) (kind_num pi.pi_kind)
+        (int_of_n pi.pi_id) (hex_of_bytes (ibytes pi.pi_loc))) infos in
+    String.concat ";" (List.sort compare l)
+
+let manifest_case (c : case) (out : out_channel) =
+  let file = ref [] and step = ref 1 in
+  List.iter (fun l ->
+    match l with
+    | ["file"; path] ->
+      file := nbytes (read_file path);
+      Printf.fprintf out "%s 0 infos %s\n" c.id (infos_line !file);
+      Printf.fprintf out "%s 0 file %s\n" c.id (digest (ibytes !file));
+      Printf.fprintf out "%s 0 layout %b\n" c.id (layout_okb !file);
+      (match manifest_view !file with
+       | Ok v -> Printf.fprintf out "%s 0 view %s\n" c.id (digest (ibytes v))
+       | Err e -> Printf.fprintf out "%s 0 view %s\n" c.id (show_res_err e))
+    | ["setloc"; u; loc] ->
+      let r = set_location !file (nbytes (bytes_of_hex u)) (nbytes (bytes_of_hex loc)) in
+      (match r with
+       | Err e -> Printf.fprintf out "%s %d res %s\n" c.id !step (show_res_err e)
+       | Ok None -> Printf.fprintf out "%s %d res none\n" c.id !step
+       | Ok (Some ((f', k), old)) ->
+         file := f';
+         Printf.fprintf out "%s %d res some:%d:%s\n" c.id !step (kind_num k) (hex_of_bytes (ibytes old)));
+      Printf.fprintf out "%s %d file %s\n" c.id !step (digest (ibytes !file));
+      Printf.fprintf out "%s %d infos %s\n" c.id !step (infos_line !file);
+      (match manifest_view !file with
+       | Ok v -> Printf.fprintf out "%s %d view %s\n" c.id !step (digest (ibytes v))
+       | Err e -> Printf.fprintf out "%s %d view %s\n" c.id !step (show_res_err e));
+      incr step
+    | _ -> failwith "bad manifest line") c.lines
+
 let () =
   let cases = parse_cases Sys.argv.(1) in
   let out = open_out Sys.argv.(2) in
@@ -37,6 +80,7 @@ let () =
     try
       match c.family with
       | "views" -> views_case c out
+      | "manifest" -> manifest_case c out
       | f -> failwith ("unknown family " ^ f)
     with e -> Printf.fprintf out "%s MODEL_EXN %s\n" c.id (Printexc.to_string e)) cases;
   close_out out
